@@ -3,7 +3,7 @@ from __future__ import annotations
 
 import numpy as np
 
-from .. import build, gen, monitors
+from .. import build, cppdrv, gen, monitors
 from . import common as K
 
 ID = "C09"
@@ -27,8 +27,12 @@ N = {"quick": 96, "thorough": 1600}
 STEPS = {"quick": 50, "thorough": 400}
 
 
+N_CPP = {"quick": 6, "thorough": 60}
+
+
 def plan(tier, seed):
-    return [{"uid": f"h{i}", "i": i} for i in range(N[tier])]
+    units = [{"uid": f"cpp{i}", "kind": "cpp", "i": i} for i in range(N_CPP[tier])]
+    return units + [{"uid": f"h{i}", "i": i} for i in range(N[tier])]
 
 
 def unit_timeout(tier):
@@ -41,7 +45,8 @@ def floors(tier):
             "counters": {"asserted_matrices_classified": n * STEPS[tier],
                          "returned_covariances_classified": n * STEPS[tier] // 3,
                          "histories_singular_family": n // 6,
-                         "histories_completed": n // 3}}
+                         "histories_completed": n // 3,
+                         "cpp_returned_covariances_classified": N_CPP[tier] * 20}}
 
 
 def setup_worker(ctx):
@@ -93,7 +98,74 @@ def init_cov(rng, n):
     return kind, gen.spd(rng, n, "rand")
 
 
+def run_cpp(unit, ctx):
+    """The same kind of history through the generated C++ filter (free-running: every step is fed the
+    previous step's output); every returned covariance is classified."""
+    R = K.Result()
+    rng = K.unit_rng(ID, ctx["seed"], unit)
+    defn = gen_defn(rng, unit["i"])
+    fam = defn.get("family", "?")
+    b = build.Built(defn)
+    md = rng.choice([0.05, 0.1, 0.5])
+    k = rng.choice([None, 5.0])
+    eb = cppdrv.EkfBinary(defn, b, {"innovation_filtering": k, "max_dt_sec": md,
+                                    "common_subexpression_elimination": rng.random() < 0.5},
+                          compiler="clang++-14" if unit["i"] % 3 == 2 else "g++")
+    try:
+        if not eb.ok:
+            R.add([K.V("cpp:does-not-compile", f"generated filter does not compile: {eb.compile_err[-1200:]}", defn=defn)])
+            return R.out()
+        names = eb.state
+        ckind, P0 = init_cov(rng, len(names))
+        x = {s: rng.gauss(0, 1) for s in names}
+        P = P0.tolist()
+        n_pred = n_upd = 0
+        steps = 30 if ctx["tier"] == "quick" else 120
+        for step in range(steps):
+            if rng.random() < 0.6 or not eb.sensors:
+                dt = md * rng.choice([1.0, 1.0, rng.uniform(0.01, 1.0)])
+                cmd = eb.pm_cmd(dt, x, P, {c: rng.gauss(0, 1) for c in eb.control})
+                kind = "PM"
+            else:
+                sn = rng.choice(eb.sensors)
+                cmd = eb.sm_cmd(sn, x, P, {r: rng.gauss(0, 1) for r in eb.readings[sn]})
+                kind = "SM"
+            res = eb.run([eb.cal_cmd(defn["calibration_map"]), cmd])
+            if res["sanitizer"] or res["rc"] != 0 or len(res["lines"]) < 3:
+                R.add([K.V("cpp:sanitizer-or-crash", f"generated filter driver rc={res['rc']}: {res['err'][-1200:]}", defn=defn)])
+                break
+            if kind == "PM":
+                x, P = eb.parse_pm(res["lines"][1])
+                n_pred += 1
+            else:
+                _same, x, P, _has, _y = eb.parse_sm(sn, res["lines"][1])
+                n_upd += 1
+            R.evals += 1
+            cls, asym, lam = classify(np.array(P))
+            R.stats.inc("cpp_returned_covariances_classified")
+            R.stats.inc(f"cpp_returned_{cls}")
+            R.stats.mx("cpp_returned_asym_rel", asym)
+            R.stats.mx("cpp_returned_neg_eig_rel", max(0.0, -lam))
+            if cls == "invalid":
+                R.add([K.V("cpp:returned-invalid-covariance",
+                           f"step {step}: generated C++ filter returned a covariance that is not symmetric PSD (relative asymmetry {asym:.3g}, relative min eigenvalue {lam:.3g})",
+                           defn=defn, matrix=P, family=fam, step=step)])
+                break
+            if max(abs(v) for row in P for v in row) > 1e9 or max(abs(v) for v in x.values()) > 1e9:
+                R.stats.inc("histories_cut_by_magnitude")
+                break
+        fp = gen.fingerprint(["cpp", defn, ckind, unit["i"]])
+        R.fps_all.append(fp)
+        if n_pred and n_upd and n_pred + n_upd >= 20:
+            R.fps.append(fp)
+    finally:
+        eb.close()
+    return R.out()
+
+
 def run_unit(unit, ctx):
+    if unit.get("kind") == "cpp":
+        return run_cpp(unit, ctx)
     R = K.Result()
     rng = K.unit_rng(ID, ctx["seed"], unit)
     defn = gen_defn(rng, unit["i"])
